@@ -144,10 +144,22 @@ def check(case, stats=None):
             if recs:
                 # intervals
                 want = [(r["pos"], r["pos"] + bamenc.ref_consumed(r["cigar"]), "-" if r["flag"] & 16 else "+") for r in recs]
-                iv = bnp.alignments.alignment_to_interval(bnp.open(path, lazy=False).read())
-                got = list(zip(np.asarray(iv.start).tolist(), np.asarray(iv.stop).tolist(), [s for s in iv.strand.ravel().to_string()]))
-                if got != want:
-                    return [Failure("C16:alignment_to_interval", {"expected": want[:5], "actual": got[:5]})]
+                for lazy in (False, True):
+                    src = bnp.open(path, lazy=lazy).read()
+                    iv = bnp.alignments.alignment_to_interval(src)
+                    got = list(zip(np.asarray(iv.start).tolist(), np.asarray(iv.stop).tolist(), [s for s in iv.strand.ravel().to_string()]))
+                    if got != want:
+                        return [Failure("C16:alignment_to_interval", {"expected": want[:5], "actual": got[:5], "lazy": lazy})]
+                    # the records the intervals were taken from still decode to the same values, and so does a selection made on the flag afterwards
+                    fail = compare(table_dicts(src), recs, refs, "after-alignment_to_interval")
+                    if fail:
+                        return [fail]
+                    keep = [i for i, r in enumerate(recs) if not r["flag"] & 4]
+                    sel = src[(np.asarray(src.flag) & 4) == 0]
+                    fail = compare(table_dicts(sel) if len(keep) else [], [recs[i] for i in keep], refs, "mapped-selection-after-alignment_to_interval") \
+                        if len(sel) == len(keep) else Failure("C16:record-count:mapped-selection-after-alignment_to_interval", {"expected": len(keep), "actual": len(sel)})
+                    if fail:
+                        return [fail]
                 iv2 = bnp.open(path, buffer_type=BamIntervalBuffer, lazy=False).read()
                 got = list(zip(np.asarray(iv2.start).tolist(), np.asarray(iv2.stop).tolist(), [s for s in iv2.strand.ravel().to_string()]))
                 if got != want:
